@@ -14,6 +14,7 @@ import (
 	"path"
 	"path/filepath"
 	"slices"
+	"sync"
 	"text/template"
 	"time"
 
@@ -45,6 +46,10 @@ type HTMLReport struct {
 
 	// bestResults is the best results for each asset.
 	bestResults []*htmlReportResult
+
+	// mutex guards the asset and the best results, as the report
+	// is written by all backtest workers.
+	mutex sync.Mutex
 
 	// WriteStrategyReports indicates whether the individual strategy reports should be generated.
 	WriteStrategyReports bool
@@ -103,6 +108,9 @@ func (h *HTMLReport) Begin(assetNames []string, _ []strategy.Strategy) error {
 
 // AssetBegin is called when backtesting for the given asset begins.
 func (h *HTMLReport) AssetBegin(name string, strategies []strategy.Strategy) error {
+	h.mutex.Lock()
+	defer h.mutex.Unlock()
+
 	_, ok := h.assetResults[name]
 	if ok {
 		return fmt.Errorf("asset has already begun: %s", name)
@@ -138,32 +146,41 @@ func (h *HTMLReport) Write(assetName string, currentStrategy strategy.Strategy, 
 	}
 
 	// Get asset strategy results.
+	h.mutex.Lock()
 	results, ok := h.assetResults[assetName]
+	h.mutex.Unlock()
 	if !ok {
 		return fmt.Errorf("asset has not begun: %s", assetName)
 	}
 
 	// Append current strategy result for the asset.
-	h.assetResults[assetName] = append(results, &htmlReportResult{
+	result := &htmlReportResult{
 		AssetName:    assetName,
 		StrategyName: currentStrategy.Name(),
 		Action:       <-actions,
 		Since:        <-sinces,
 		Outcome:      <-outcomes * 100,
 		Transactions: <-transactions,
-	})
+	}
+
+	h.mutex.Lock()
+	h.assetResults[assetName] = append(results, result)
+	h.mutex.Unlock()
 
 	return nil
 }
 
 // AssetEnd is called when backtesting for the given asset ends.
 func (h *HTMLReport) AssetEnd(name string) error {
+	h.mutex.Lock()
 	results, ok := h.assetResults[name]
 	if !ok {
+		h.mutex.Unlock()
 		return fmt.Errorf("asset has not begun: %s", name)
 	}
 
 	delete(h.assetResults, name)
+	h.mutex.Unlock()
 
 	// Sort the backtest results by the outcomes.
 	slices.SortFunc(results, func(a, b *htmlReportResult) int {
@@ -174,7 +191,9 @@ func (h *HTMLReport) AssetEnd(name string) error {
 
 	// Report the best result for the current asset.
 	h.Logger.Info("Best outcome", "asset", name, "strategy", bestResult.StrategyName, "outcome", bestResult.Outcome)
+	h.mutex.Lock()
 	h.bestResults = append(h.bestResults, bestResult)
+	h.mutex.Unlock()
 
 	// Write the asset report.
 	err := h.writeAssetReport(name, results)
